@@ -114,7 +114,7 @@ Qed.
 Lemma tally_exact chain h r cb want vals sigs acc got :
   Forall (fun v => 0 <= val_power v) vals -> 0 <= acc -> acc + sum_powers vals <= max_int64 ->
   bid_is_zero want = false -> bid_eqb want cb = true ->
-  tally chain h r cb want vals sigs acc = Some got ->
+  tally chain h r cb want vals sigs acc = TOk got ->
   got = acc + signed_power chain h r want vals sigs.
 Proof.
   intros Hf; revert sigs acc; induction Hf as [|v vs Hv Hvs IH]; intros sigs acc Ha Hb Hz Hcb Ht.
@@ -127,7 +127,8 @@ Proof.
     destruct (N.eqb (cs_flag cs) FLAG_ABSENT) eqn:Eabs.
     + apply N.eqb_eq in Eabs. rewrite Eabs. change (N.eqb FLAG_ABSENT FLAG_COMMIT) with false. cbn [andb].
       apply IH in Ht; auto; lia.
-    + destruct (N.eqb (cs_flag cs) FLAG_COMMIT) eqn:Ecom; cbn [andb].
+    + destruct (N.eqb (cs_addr cs) (val_addr v)); cbn [negb] in Ht; [|discriminate].
+      destruct (N.eqb (cs_flag cs) FLAG_COMMIT) eqn:Ecom; cbn [andb].
       * destruct (sig_valid chain (val_addr v) PRECOMMIT h r want (cs_time cs) (cs_sig cs)) eqn:Esig; [|discriminate].
         rewrite Hww in Ht.
         rewrite wrap64_id in Ht by (unfold in_int64, min_int64, max_int64, two63 in *; lia).
@@ -152,7 +153,7 @@ Proof.
   destruct (Nat.eqb (length vals) (length (c_sigs c))) eqn:Elen; cbn [negb]; [|discriminate].
   destruct (N.eqb h (c_height c)) eqn:Eh; cbn [negb]; [|discriminate].
   destruct (bid_eqb want (c_bid c)) eqn:Eb; cbn [negb]; [|discriminate].
-  destruct (tally chain (c_height c) (c_round c) (c_bid c) want vals (c_sigs c) 0) as [got|] eqn:Et; [|discriminate].
+  destruct (tally chain (c_height c) (c_round c) (c_bid c) want vals (c_sigs c) 0) as [got| |] eqn:Et; [|discriminate|discriminate].
   destruct (Z.leb got (two_thirds vals)) eqn:Ele; [discriminate|]. intros _.
   apply Nat.eqb_eq in Elen. apply N.eqb_eq in Eh. pose proof Eb as Eb'. apply bid_eqb_eq in Eb'.
   subst h. pose proof Hw as [Hf Hc]. pose proof cap_fits as [_ Hcap].
@@ -173,10 +174,11 @@ Lemma tally_total chain h r want vals sigs acc :
   bid_is_zero want = false -> length sigs = length vals ->
   (forall i val cs, nth_error vals i = Some val -> nth_error sigs i = Some cs ->
      N.eqb (cs_flag cs) FLAG_ABSENT = true \/
-     (N.eqb (cs_flag cs) FLAG_COMMIT = true /\ sig_valid chain (val_addr val) PRECOMMIT h r want (cs_time cs) (cs_sig cs) = true) \/
-     (N.eqb (cs_flag cs) FLAG_ABSENT = false /\ N.eqb (cs_flag cs) FLAG_COMMIT = false /\
+     (N.eqb (cs_flag cs) FLAG_COMMIT = true /\ cs_addr cs = val_addr val /\
+      sig_valid chain (val_addr val) PRECOMMIT h r want (cs_time cs) (cs_sig cs) = true) \/
+     (N.eqb (cs_flag cs) FLAG_ABSENT = false /\ N.eqb (cs_flag cs) FLAG_COMMIT = false /\ cs_addr cs = val_addr val /\
       sig_valid chain (val_addr val) PRECOMMIT h r bid_zero (cs_time cs) (cs_sig cs) = true)) ->
-  tally chain h r want want vals sigs acc = Some (acc + signed_power chain h r want vals sigs).
+  tally chain h r want want vals sigs acc = TOk (acc + signed_power chain h r want vals sigs).
 Proof.
   intros Hf; revert sigs acc; induction Hf as [|v vs Hv Hvs IH]; intros sigs acc Ha Hb Hz Hl Hall.
   - destruct sigs; simpl in *; [f_equal; lia|discriminate].
@@ -185,17 +187,54 @@ Proof.
     cbn [tally signed_power] in *. change (sum_powers (v :: vs)) with (val_power v + sum_powers vs) in *. unfold signs_block.
     assert (Hrest : forall i val cs0, nth_error vs i = Some val -> nth_error st i = Some cs0 -> _) by
         (intros i val cs0 H1 H2; exact (Hall (S i) val cs0 H1 H2)).
-    destruct (Hall O v cs eq_refl eq_refl) as [Habs | [[Hc Hs] | [Habs [Hc Hs]]]].
+    destruct (Hall O v cs eq_refl eq_refl) as [Habs | [[Hc [Had Hs]] | [Habs [Hc [Had Hs]]]]].
     + rewrite Habs. apply N.eqb_eq in Habs. rewrite Habs. change (N.eqb FLAG_ABSENT FLAG_COMMIT) with false. cbn [andb].
       rewrite IH; auto; try lia; try (f_equal; lia).
     + assert (Habs : N.eqb (cs_flag cs) FLAG_ABSENT = false).
       { apply N.eqb_eq in Hc. rewrite Hc. reflexivity. }
-      rewrite Habs, Hc, Hs. cbn [andb].
+      rewrite Habs, Had, N.eqb_refl, Hc, Hs. cbn [andb negb].
       assert (Hww : bid_eqb want want = true) by (apply bid_eqb_eq; reflexivity). rewrite Hww.
       rewrite wrap64_id by (unfold in_int64, min_int64, max_int64, two63 in *; lia).
       rewrite IH; auto; try lia; try (f_equal; lia).
-    + rewrite Habs, Hc, Hs. cbn [andb].
+    + rewrite Habs, Had, N.eqb_refl, Hc, Hs. cbn [andb negb].
       assert (Hwz : bid_eqb want bid_zero = false).
       { destruct (bid_eqb want bid_zero) eqn:E; [|reflexivity]. apply bid_eqb_eq in E. subst want. discriminate. }
       rewrite Hwz. rewrite IH; auto; try lia; try (f_equal; lia).
+Qed.
+
+(** VerifyCommit accepts only commits in which every non-absent slot names the validator of its
+    position: the address (not covered by the sign bytes, but used by MedianTime to weigh the slot's
+    timestamp) cannot be forged. *)
+Lemma tally_addresses chain h r cb want vals sigs acc got :
+  tally chain h r cb want vals sigs acc = TOk got ->
+  forall i val cs, nth_error vals i = Some val -> nth_error sigs i = Some cs ->
+    N.eqb (cs_flag cs) FLAG_ABSENT = false -> cs_addr cs = val_addr val.
+Proof.
+  revert sigs acc; induction vals as [|v vs IH]; intros sigs acc Ht i val cs Hv Hc Hna.
+  - destruct i; discriminate.
+  - destruct sigs as [|c0 st]; [destruct i; discriminate|].
+    cbn [tally] in Ht.
+    destruct (N.eqb (cs_flag c0) FLAG_ABSENT) eqn:Eabs.
+    + destruct i as [|i]; cbn [nth_error] in Hv, Hc.
+      * injection Hc as <-. congruence.
+      * eapply IH; eauto.
+    + destruct (N.eqb (cs_addr c0) (val_addr v)) eqn:Ead; cbn [negb] in Ht; [|discriminate].
+      destruct (sig_valid chain (val_addr v) PRECOMMIT h r _ (cs_time c0) (cs_sig c0)); [|discriminate].
+      destruct i as [|i]; cbn [nth_error] in Hv, Hc.
+      * injection Hv as <-. injection Hc as <-. apply N.eqb_eq. exact Ead.
+      * eapply IH; eauto.
+Qed.
+
+Theorem verify_commit_addresses vals chain want h c :
+  verify_commit vals chain want h c = COk ->
+  forall i val cs, nth_error vals i = Some val -> nth_error (c_sigs c) i = Some cs ->
+    N.eqb (cs_flag cs) FLAG_ABSENT = false -> cs_addr cs = val_addr val.
+Proof.
+  unfold verify_commit.
+  destruct (commit_validate_basic c); cbn [negb]; [|discriminate].
+  destruct (Nat.eqb (length vals) (length (c_sigs c))); cbn [negb]; [|discriminate].
+  destruct (N.eqb h (c_height c)); cbn [negb]; [|discriminate].
+  destruct (bid_eqb want (c_bid c)); cbn [negb]; [|discriminate].
+  destruct (tally chain (c_height c) (c_round c) (c_bid c) want vals (c_sigs c) 0) as [got| |] eqn:Et; [|discriminate|discriminate].
+  intros _. eapply tally_addresses; eauto.
 Qed.
